@@ -57,7 +57,7 @@ func (g *ogen) intExpr(d int) *onode {
 		}
 		return xs
 	}
-	switch g.r.Intn(22) {
+	switch g.r.Intn(23) {
 	case 0, 1:
 		return &onode{kind: "probe", kids: []*onode{g.intExpr(d)}}
 	case 2, 3:
@@ -109,6 +109,15 @@ func (g *ogen) intExpr(d int) *onode {
 		return &onode{kind: "gospread", fn: "probe2", k: 2, kids: ints(1 + g.r.Intn(3))}
 	case 20:
 		return &onode{kind: "govspread", fn: "vprobe", kids: ints(g.r.Intn(3))}
+	case 21:
+		// typed variadic Go function: arguments converted one by one, as they are evaluated; k = position of a
+		// value that does not convert (or -1)
+		n := 1 + g.r.Intn(4)
+		bad := int64(-1)
+		if g.r.Intn(2) == 0 {
+			bad = int64(g.r.Intn(n))
+		}
+		return &onode{kind: "vtyped", fn: "vtyped", k: bad, kids: ints(n)}
 	}
 	return g.lit()
 }
@@ -165,6 +174,15 @@ func (n *onode) src() string {
 		return n.fn + "([" + joinKids(n.kids) + "]...)"
 	case "failconv":
 		return "typed2(" + n.kids[0].src() + ", \"notanint\")"
+	case "vtyped":
+		xs := make([]string, len(n.kids))
+		for i, k := range n.kids {
+			xs[i] = k.src()
+			if int64(i) == n.k {
+				xs[i] = "[" + k.src() + "]" // a list does not convert to int64
+			}
+		}
+		return "vtyped(" + strings.Join(xs, ", ") + ")"
 	}
 	return "?"
 }
@@ -341,6 +359,20 @@ func (n *onode) ref(tr *[]string) (interface{}, bool) {
 			return nil, true
 		}
 		return nil, true // "notanint" does not convert to int64: the stub is never called
+	case "vtyped":
+		var vs []interface{}
+		for i, k := range n.kids {
+			v, bad := k.ref(tr)
+			if bad {
+				return nil, true
+			}
+			if int64(i) == n.k {
+				return nil, true // this argument does not convert: later arguments are not evaluated, the function is not called
+			}
+			vs = append(vs, v)
+		}
+		record(vs)
+		return int64(len(vs)), false
 	}
 	return nil, true
 }
@@ -360,7 +392,20 @@ func streamOrder(o *Out, r *rand.Rand, n int, thorough bool) {
 			d := 1 + r.Intn(3)
 			var stmt string
 			bad := false
-			switch r.Intn(8) {
+			switch r.Intn(10) {
+			case 8, 9: // typed map / slice literals: key_i then value_i, elements in order
+				ks := []*onode{g.intExpr(d), g.intExpr(d), g.intExpr(d), g.intExpr(d)}
+				if r.Intn(2) == 0 {
+					stmt = "map[int64]interface{" + ks[0].src() + ": " + ks[1].src() + ", " + ks[2].src() + ": " + ks[3].src() + "}"
+				} else {
+					stmt = "[]interface{" + joinKids(ks) + "}"
+				}
+				for _, k := range ks {
+					if _, bd := k.ref(&want); bd {
+						bad = true
+						break
+					}
+				}
 			case 7: // go call of a script function: the caller evaluates the arguments once, in order, before the goroutine starts
 				np := 1 + r.Intn(6)
 				ks := make([]*onode, np)
